@@ -87,7 +87,7 @@ def configs(tier):
     for first in alphabet:
         for second in alphabet:
             for ua in (("cm",) if tier == "quick" else ("cm", "g")):
-                if second.get("op") == "add" and ua != "cm":
+                if (second.get("op") == "add" or first.get("op") == "add") and ua != "cm":
                     continue
                 add(pre=[dict(first, dta="float64", sa=(2,), ua=ua)], dta="float64", sa=(2,), ua=ua, **second)
     for c in out:
